@@ -2,6 +2,8 @@ import TracklibVerif.Model.GraphAStarPath
 import TracklibVerif.Lemmas.GraphAStarPath
 import TracklibVerif.Lemmas.GraphMetric
 import TracklibVerif.Lemmas.GraphPathExt
+import Mathlib.Analysis.Real.Sqrt
+import Mathlib.Tactic.NormNum
 /-! # C07 in A* mode — a returned shortest path is a real, optimal, geometrically continuous route
 
 Property theorems for `Network.shortest_path` after `setRoutingMethod(Network.ROUTING_ALGO_ASTAR)` (model:
@@ -165,6 +167,26 @@ theorem astar_path_optimal_cut (net : Net W) (hnet : WFNet net) (hu : UniqueIds 
   cases e
   exact ⟨l, g, g', a, b, c⟩
 
+/-- consistent heuristic smallest at the target, ANY cut-off (also one below the true distance): a returned path is a real
+route with its geometry chained, the weights of its edges sum to the value `y` that `shortest_distance(s, t, cut)` reports in
+A* mode, `y` is at least the true distance `d`, and if `y` does not exceed the cut-off then `y = d`. -/
+theorem astar_path_cut_sound (net : Net W) (hnet : WFNet net) (hu : UniqueIds net) (geo : Geo P) (h : Nat → W)
+    (hc : Consistent net h) (s t : Nat) (hs : s < net.n) (hmin : ∀ v, h t ≤ h v) (cut : Option W) (nodes : List Nat)
+    (geom : List P) (hp : shortestPathH net geo h s t cut = .path nodes geom) :
+    ∃ l g g' y d, nodes = l ++ [t] ∧ geom = g ++ [geo.pos t] ∧ Route net geo s l g g' t y ∧
+      shortestDistanceH net h s t cut = some y ∧ IsDist net s t d ∧ d ≤ y ∧ (Within cut y → y = d) := by
+  obtain ⟨l, g, g', y, a, b, _, c, hw, e⟩ := astar_path_is_walk net hnet hu geo h s t hs cut nodes geom hp
+  have hsp := shortestDistanceH_spec net hnet h hc s t hs
+  cases hd0 : shortestDistanceH net h s t none with
+  | none => exact absurd ⟨y, hw⟩ (hsp.2.1 hd0)
+  | some d =>
+    have hd : IsDist net s t d := (hsp.1 d).1 hd0
+    have hle : d ≤ y := hd.2 y hw
+    refine ⟨l, g, g', y, d, a, b, c, e, hd, hle, fun hwi => ?_⟩
+    have hwd : Within cut d := fun c' hc' => le_trans hle (hwi c' hc')
+    rw [(shortestDistanceH_cut net hnet h hc s t hs hmin cut).1 d hd hwd] at e
+    exact (Option.some.inj e).symm
+
 /-- paths requested after an A* search that was STOPPED (at its target `t0`, or by a cut-off), consistent heuristic: for every
 node `t ≠ s` that the search had settled (`visite`) before it stopped, `run_routing_backward(t)` returns a route from `s` to
 `t` whose weights sum to the true distance. (Nodes labelled but not settled may get a tentative route: `astar_path_is_walk`.) -/
@@ -263,6 +285,43 @@ theorem setters_touch_settings_only (sqrt : W → W) (net : Net W) (geo : GeoT) 
     (stepOpA sqrt net geo pos order sa (.setMethod m)).1 = { sa with mode := m } ∧
     (stepOpA sqrt net geo pos order sa (.setWeight w)).1 = { sa with wgt := w } := ⟨rfl, rfl⟩
 end session
+
+/-! ### the property in a session, from the configuration -/
+section sessionMetric
+variable {F : Type} [Field F] [LinearOrder F] [IsStrictOrderedRing F]
+
+/-- **at any point of a session** on an object whose `routing_mode` is 1 at that moment, with `0 ≤ astar_wgt` and every permitted
+arc weighing at least `astar_wgt ×` the straight-line distance of its ends: whatever searches were made before (in either mode),
+however the nodes are designated, with or without `output_dict` — `shortest_path(s, t)` never diverges, returns `None` iff `t`
+is unreachable or `t = s`, and otherwise a track without analytical feature that is the chain of a real route whose weights sum
+to the true shortest distance, which is also the label left on the target. -/
+theorem astar_session_metric_optimal {sqrt : F → F} (hsq : IsSqrt sqrt) (net : Net F) (hnet : WFNet net) (hu : UniqueIds net)
+    (geo : GeoT) (pos : Nat → Pos F) (order : List Nat) (sa : SessA F) (hm : sa.mode = 1) (hw : 0 ≤ sa.wgt)
+    (hedge : ∀ u v w, Arc net u v w → sa.wgt * distanceTo sqrt (pos u) (pos v) ≤ w)
+    (s t : NodeArg) (ud : Bool) (hs : correctInputNode s < net.n) :
+    ∃ b lab, (stepOpA sqrt net geo pos order sa (.call (.path s t none ud))).2 = .path b lab ∧ b ≠ .diverge ∧
+      (b = .none ↔ (¬ Reachable net (correctInputNode s) (correctInputNode t) ∨ correctInputNode t = correctInputNode s)) ∧
+      (∀ nodes trk, b = .path nodes trk → ∃ l g g' y, nodes = l ++ [correctInputNode t] ∧
+        trk = ⟨g ++ [geo.pos (correctInputNode t)], []⟩ ∧
+        Route net geo.toGeo (correctInputNode s) l g g' (correctInputNode t) y ∧
+        IsDist net (correctInputNode s) (correctInputNode t) y ∧ lab = some y) := by
+  refine ⟨_, _, astar_session_path_fresh sqrt net geo pos order sa s t none ud, ?_, ?_, ?_⟩
+  all_goals
+    have hh : sa.h sqrt pos (some (correctInputNode t)) = heuristicOf sqrt pos 1 sa.wgt (some (correctInputNode t)) := by
+      unfold SessA.h; rw [hm]
+    rw [hh, astar_track_operators_agree]
+    obtain ⟨m1, m2⟩ := astar_metric_path_optimal hsq net hnet hu geo.toGeo pos sa.wgt hw hedge
+      (correctInputNode s) (correctInputNode t) hs
+  · intro hd
+    exact astar_never_diverges net hnet hu geo.toGeo _ _ _ hs none (liftBack_diverge.1 hd)
+  · rw [liftBack_none]; exact m1
+  · intro nodes trk hb
+    obtain ⟨h1, h2⟩ := liftBack_path hb
+    obtain ⟨l, g, g', y, a, b, c, e, f, _⟩ := m2 none nodes trk.pts h1
+    refine ⟨l, g, g', y, a, ?_, c, f rfl, e⟩
+    cases trk with
+    | mk p tb => simp only at b h2; rw [b, h2]; rfl
+end sessionMetric
 
 /-! ### sequences of calls on one object with routing settings -/
 section machine
@@ -389,4 +448,28 @@ continuous, weighing the reported 26 — and is not optimal; `astar_path_is_walk
 def aroadBad : Nat → Int := fun v => if v = 1 then 100 else 0
 example : shortestPathH aroad aroadGeo aroadBad 0 2 none = .path [0, 3, 2] [(0, 0), (10, 5), (20, 0)] ∧
     shortestDistanceH aroad aroadBad 0 2 none = some 26 := by decide +kernel
+
+/-! ### the hypotheses of the metric form are satisfiable: the reals with `Real.sqrt` -/
+example : IsSqrt Real.sqrt := fun x hx => ⟨Real.sqrt_nonneg x, Real.mul_self_sqrt hx⟩
+/-- one two-way edge of weight 5 between nodes at (0, 0, 0) and (3, 4, 0): it weighs `astar_wgt = 1` × its straight length -/
+noncomputable def rnet : Net ℝ := { n := 2, edges := [⟨0, 0, 1, 5, 0⟩] }
+noncomputable def rpos : Nat → Pos ℝ := fun v => if v = 0 then ⟨0, 0, 0⟩ else ⟨3, 4, 0⟩
+example : ∀ u v w, Arc rnet u v w → (1 : ℝ) * distanceTo Real.sqrt (rpos u) (rpos v) ≤ w := by
+  intro u v w ha
+  obtain ⟨e, he, hw, hdir⟩ := ha
+  simp only [rnet, List.mem_singleton] at he
+  subst he
+  have h25 : Real.sqrt 25 = 5 := by
+    rw [show (25 : ℝ) = 5 * 5 by norm_num]; exact Real.sqrt_mul_self (by norm_num)
+  rcases hdir with ⟨_, hu, hv⟩ | ⟨_, hu, hv⟩
+  · simp only at hu hv hw
+    subst hu hv hw
+    simp only [rpos, distanceTo]
+    norm_num
+    rw [h25]
+  · simp only at hu hv hw
+    subst hu hv hw
+    simp only [rpos, distanceTo]
+    norm_num
+    rw [h25]
 end TV.C07
